@@ -69,7 +69,7 @@ pub fn show_resp(r: &Response) -> String {
     format!("{kind} {} {proto} {exts}", simsock::addr_hex(d.addr))
 }
 
-fn err_kind(e: &Error) -> &'static str {
+pub fn err_kind(e: &Error) -> &'static str {
     match e {
         Error::InvalidPacketSize(_) => "invalid-packet-size",
         Error::PacketError(_) => "pkt-short",
@@ -102,7 +102,7 @@ pub fn panic_fail(run: &mut Run, kind: &str, req: &str, loc: &str) {
 // ---------------------------------------------------------------- calls into the real code
 
 pub fn real_dispatch(cfg: &WCfg, p: &Probe) -> Result<(), Error> {
-    let mut s = SimSocket;
+    let mut s = SimSocket::anon();
     if cfg.v6 {
         let ip = cfg.ipv6();
         match cfg.proto {
@@ -178,7 +178,7 @@ pub fn exec_recv(cfg: &WCfg, from: Option<IpAddr>, bytes: &[u8]) -> (String, Res
     simsock::reset();
     simsock::push_datagram(bytes.to_vec(), from.map(|a| SocketAddr::new(a, 0)));
     let r = guarded(|| {
-        let mut s = SimSocket;
+        let mut s = SimSocket::anon();
         if cfg.v6 { cfg.ipv6().recv_icmp_probe(&mut s) } else { cfg.ipv4().recv_icmp_probe(&mut s) }
     });
     (req, r)
@@ -211,14 +211,14 @@ pub fn op_tcp(run: &mut Run, cfg: &WCfg, sp: u16, dp: u16, st: &TcpState) -> Rec
         TcpState::Connected(Some(a)) => format!("conn:{}", simsock::addr_hex(*a)),
         TcpState::Refused => "refused".to_string(),
         TcpState::Unreach(a) => format!("unreach:{}", simsock::addr_hex(*a)),
-        TcpState::Other => "other".to_string(),
+        TcpState::Other | TcpState::TakeErrorFails => "other".to_string(),
     };
     let req = format!("wire tcp {} {sp} {dp} {state}", cfg.tokens());
     run.count("op:tcp");
     simsock::reset();
     simsock::set_tcp(st.clone());
     let r = guarded(|| {
-        let mut s = SimSocket;
+        let mut s = SimSocket::anon();
         if cfg.v6 {
             cfg.ipv6().recv_tcp_socket(&mut s, Port(sp), Port(dp))
         } else {
@@ -315,7 +315,7 @@ pub fn op_slice(run: &mut Run, acc: &str, b: &[u8]) {
 pub const PATHS: [&str; 8] = ["icmp4", "udpraw4", "udp4", "tcp4", "icmp6", "udpraw6", "udp6", "tcp6"];
 pub const CALLS: [&str; 7] = ["new", "bind", "ttl", "tos", "hops", "send", "conn"];
 
-fn io_kind_name(e: Inject) -> &'static str {
+pub fn io_kind_name(e: Inject) -> &'static str {
     use std::io::ErrorKind as K;
     match e {
         Inject::Errno(libc::EINPROGRESS) => "in-progress",
